@@ -254,9 +254,69 @@ func (e *Enc) run() {
 			e.cover("vacuity", "requires-satisfiable", "true")
 		}
 	}
+	if e.Ct != nil && e.Ct.Stateless && e.pass == 2 {
+		e.statelessObligations()
+	}
 	order := e.topoOrder()
 	for _, b := range order {
 		e.block(b)
+	}
+}
+
+// statelessObligations: a `stateless` contract lets callers treat the result as a function of the argument values
+// alone. That is checked here, structurally: parameters and result are plain data, the body reads no package variable,
+// and every callee is itself under a stateless contract or is a library function known to be a function of its
+// arguments (strings, strconv, unicode, utf8, math/bits, builtins).
+func (e *Enc) statelessObligations() {
+	okSig := true
+	for _, p := range e.Fn.Params {
+		if !plainData(p.Type(), 0) {
+			okSig = false
+		}
+	}
+	res := e.Fn.Signature.Results()
+	for i := 0; i < res.Len(); i++ {
+		if !plainData(res.At(i).Type(), 0) {
+			okSig = false
+		}
+	}
+	detail := ""
+	okBody := true
+	for _, b := range e.Fn.Blocks {
+		for _, ins := range b.Instrs {
+			var ops []*ssa.Value
+			for _, op := range ins.Operands(ops) {
+				if op != nil && *op != nil {
+					if g, isGlobal := (*op).(*ssa.Global); isGlobal {
+						okBody = false
+						detail = "reads or writes the package variable " + g.Name()
+					}
+				}
+			}
+			if c, ok := ins.(ssa.CallInstruction); ok {
+				if _, isBuiltin := c.Common().Value.(*ssa.Builtin); isBuiltin {
+					continue
+				}
+				callee, key := e.calleeOf(c)
+				if ct := e.contractFor(key); ct != nil && (ct.Stateless || (ct.Trusted != "" && ct.Pure)) {
+					continue
+				}
+				if callee != nil && callee.Pkg != nil {
+					switch callee.Pkg.Pkg.Path() {
+					case "strings", "strconv", "unicode", "unicode/utf8", "math/bits", "math":
+						continue
+					}
+				}
+				okBody = false
+				detail = "calls " + key + ", which is not known to be a function of its arguments"
+			}
+		}
+	}
+	for _, x := range []struct {
+		name, descr string
+		ok          bool
+	}{{"signature", "parameters and results are plain data (no references)", okSig}, {"body", "no package variable is accessed and every callee is a function of its arguments. " + detail, okBody}} {
+		e.obls = append(e.obls, &Obligation{Name: e.fnName + "#stateless@" + x.name, Func: e.fnName, Kind: "stateless", Backend: "structural", OK: x.ok, Descr: x.descr, Detail: detail})
 	}
 }
 
